@@ -1140,3 +1140,210 @@ var NoGuard = Guard{op: -1}
 
 // IsNone reports whether the guard is absent.
 func (gd Guard) IsNone() bool { return gd.op == -1 }
+
+// ---- loops -------------------------------------------------------------------
+
+// IterationEnd is one way an iteration of a loop body can end.
+type IterationEnd struct {
+	From  *cfg.Block // last block of the iteration
+	Break bool       // leaves the loop (break / goto out) instead of continuing
+	OK    bool       // the guard is established on every path that ends here
+}
+
+// LoopIteration analyses one iteration of the range loop in isolation: nothing
+// is known at the body entry; for every way the iteration can end (continue to
+// the next element, or leave the loop early) it reports whether the guard is
+// established on all paths ending there. Returning from the function inside the
+// body is not an end of the iteration in this sense (the loop result is not used).
+func (g *Graph) LoopIteration(rs *ast.RangeStmt, guard Guard) []IterationEnd {
+	loop, body, done := g.RangeBlocks(rs)
+	if loop == nil || body == nil {
+		return nil
+	}
+	ga := g.newGuardAnalysis(guard, true)
+	ga.full()
+	// forward analysis restricted to the body region (stop at loop head and done)
+	in := map[*cfg.Block][]uint64{body: ga.full()}
+	work := []*cfg.Block{body}
+	type endKey struct {
+		b  *cfg.Block
+		br bool
+	}
+	ends := map[endKey][]uint64{}
+	for len(work) > 0 {
+		b := work[len(work)-1]
+		work = work[:len(work)-1]
+		s := in[b]
+		for _, n := range b.Nodes {
+			s = ga.transferNode(n, s)
+		}
+		for k, nb := range b.Succs {
+			t := s
+			if al := ga.edgeAllowed(Edge{b, k}); al != nil {
+				t = bsIntersect(s, al)
+			}
+			if bsEmpty(t) {
+				continue
+			}
+			if nb == loop || (done != nil && nb == done) {
+				key := endKey{b, nb != loop}
+				if cur, ok := ends[key]; ok {
+					bsUnion(cur, t)
+				} else {
+					cp := make([]uint64, len(t))
+					copy(cp, t)
+					ends[key] = cp
+				}
+				continue
+			}
+			// leaving the loop region to a statement outside the loop (labelled break / goto)
+			if nb.Stmt != nil && !Encloses(rs, nb.Stmt) && len(nb.Nodes) == 0 && nb.Kind != cfg.KindUnreachable {
+				key := endKey{b, true}
+				if cur, ok := ends[key]; ok {
+					bsUnion(cur, t)
+				} else {
+					cp := make([]uint64, len(t))
+					copy(cp, t)
+					ends[key] = cp
+				}
+				continue
+			}
+			cur, ok := in[nb]
+			if !ok {
+				cp := make([]uint64, len(t))
+				copy(cp, t)
+				in[nb] = cp
+				work = append(work, nb)
+			} else if bsUnion(cur, t) {
+				work = append(work, nb)
+			}
+		}
+	}
+	var out []IterationEnd
+	for k, st := range ends {
+		out = append(out, IterationEnd{From: k.b, Break: k.br, OK: bsSubset(st, ga.holds)})
+	}
+	return out
+}
+
+// LoopEntryState reports whether the guard is established whenever the loop is
+// entered from outside (not through its own back edge).
+func (g *Graph) LoopEntryDominated(rs *ast.RangeStmt, guard Guard) bool {
+	loop, _, _ := g.RangeBlocks(rs)
+	if loop == nil {
+		return false
+	}
+	ga := g.newGuardAnalysis(guard, true)
+	in := ga.solve()
+	ok := false
+	region := g.loopRegion(rs)
+	for _, b := range g.Blocks {
+		for k, nb := range b.Succs {
+			if nb != loop || region[b] {
+				continue
+			}
+			s, reach := in[b]
+			if !reach {
+				continue
+			}
+			for _, n := range b.Nodes {
+				s = ga.transferNode(n, s)
+			}
+			if al := ga.edgeAllowed(Edge{b, k}); al != nil {
+				s = bsIntersect(s, al)
+			}
+			if !bsSubset(s, ga.holds) {
+				return false
+			}
+			ok = true
+		}
+	}
+	return ok
+}
+
+// loopRegion is the set of blocks of the loop body: reachable from the body entry
+// without going through the loop head or the block after the loop.
+func (g *Graph) loopRegion(rs *ast.RangeStmt) map[*cfg.Block]bool {
+	loop, body, done := g.RangeBlocks(rs)
+	region := map[*cfg.Block]bool{}
+	if body == nil {
+		return region
+	}
+	region[body] = true
+	work := []*cfg.Block{body}
+	for len(work) > 0 {
+		b := work[len(work)-1]
+		work = work[:len(work)-1]
+		for _, nb := range b.Succs {
+			if nb == loop || nb == done || region[nb] {
+				continue
+			}
+			region[nb] = true
+			work = append(work, nb)
+		}
+	}
+	return region
+}
+
+// DominatedAssuming is Dominated with one more fact: the boolean expression e
+// (evaluated at the site) has value v. `return a && b` is a return of true under
+// a && b and a return of false under !(a && b).
+func (g *Graph) DominatedAssuming(s Site, e ast.Expr, v bool, guard Guard) bool {
+	if guard.op == gAnd {
+		for _, kid := range guard.kids {
+			if !g.DominatedAssuming(s, e, v, kid) {
+				return false
+			}
+		}
+		return true
+	}
+	ga := g.newGuardAnalysis(guard, true)
+	in := ga.solve()
+	i := s.I
+	if i < 0 {
+		i = 0
+	}
+	st := ga.stateAt(in, s.B, i)
+	if al := ga.allowedBy(ga.ca.form(e, 0), v); al != nil {
+		st = bsIntersect(st, al)
+	}
+	return bsSubset(st, ga.holds)
+}
+
+// BoolResultIs decides that a boolean function returns true exactly when the
+// guard holds: every return of a constant is reached only with the guard (or its
+// negation) established, and a returned expression agrees with the guard on the
+// paths that reach it. It returns "" or a description of the first disagreement.
+func (g *Graph) BoolResultIs(guard Guard) string {
+	f := g.Fn
+	n := 0
+	for _, rt := range g.Returns() {
+		rs := rt.Node.(*ast.ReturnStmt)
+		if len(rs.Results) != 1 {
+			return "a return that is not a single boolean at " + f.Prog.Rel(rs.Pos())
+		}
+		n++
+		e := rs.Results[0]
+		switch {
+		case f.IsConstBool(e, true):
+			if !g.Dominated(rt, guard) {
+				return "true is returned at " + f.Prog.Rel(rs.Pos()) + " without the condition being established"
+			}
+		case f.IsConstBool(e, false):
+			if !g.Dominated(rt, GNot(guard)) {
+				return "false is returned at " + f.Prog.Rel(rs.Pos()) + " although the condition can hold"
+			}
+		default:
+			if !g.DominatedAssuming(rt, e, true, guard) {
+				return "the expression returned at " + f.Prog.Rel(rs.Pos()) + " can be true without the condition"
+			}
+			if !g.DominatedAssuming(rt, e, false, GNot(guard)) {
+				return "the expression returned at " + f.Prog.Rel(rs.Pos()) + " can be false although the condition holds"
+			}
+		}
+	}
+	if n == 0 {
+		return "no return statement"
+	}
+	return ""
+}
